@@ -23,6 +23,8 @@ def cap_ok(state):
 
 
 def l1_monitor(rec):
+    if rec[0] == "rebuild-error":
+        return []
     if rec[0] != "tick":
         return cap_ok(rec[2])
     _, before, t, after, cmds, now = rec
